@@ -2,12 +2,14 @@
   Model driver for C01 / C02 / C03 (copy of Driver/C01.lean) (the three executables share this text; `Driver/C02.lean`
   and `Driver/C03.lean` are verbatim copies — every property's driver must be its own root).
   Channels: residuals.update, info.update, info.check_convergence, info.check_termination,
-  info.post_process, variables.unscale, variables.calc_mu, solution.post_process.
+  info.post_process, variables.unscale, variables.calc_mu, solution.post_process;
+  C03 only: info.reset.
 -/
 import Driver.CscIO
 import ClarabelModel.Residuals
 import ClarabelModel.Info
 import ClarabelModel.Unscale
+import ClarabelModel.InfoReset
 
 open Clarabel Driver
 open Clarabel.Residuals Clarabel.Info Clarabel.Unscale
@@ -143,6 +145,11 @@ def handle (ch : String) (kv : KV) : String :=
     match parseInfo kv with
     | some i => fmtInfo (savePrev i) ++ " ; " ++ fmtInfo (resetToPrev i)
     | none => "bad-request"
+  | "info.reset" =>
+    -- `DefaultInfo::reset` followed by `save_scalars(·, ·, ·, iter)` (C03 round 3)
+    match parseInfo kv, kv.nat "iter" with
+    | some i, some iter => fmtInfo (reset i) ++ " ; " ++ fmtInfo (saveScalars (reset i) iter)
+    | _, _ => "bad-request"
   | "variables.unscale" =>
     match parseEquil kv, parseVars kv, kv.nat "is_infeasible" with
     | some eq, some v, some inf => fmtVars (unscale v eq (inf != 0))
